@@ -113,6 +113,9 @@ def _alphabet() -> Dict[str, Dict[str, Any]]:
        lambda h, m, i: ((h, g(m, "imask", i)), {}), ["self.register_buffer('imask{i}', torch.arange(D) % 4 == 3)"])
     # a TWO-element intermediate (one statistic per batch row, B = 2), broadcast back
     op("row_mean_gate", "row_mean_gate", "{h} * {h}.mean(dim=(1, 2), keepdim=True)", lambda h, m, i: ((h,), {}))
+    # ONE consumer takes the same (prunable, same-scale) node positionally AND by keyword
+    op("add_view_both", "add_view_both", "(lambda v: torch.add(v, other=v))({h}.view(B, S, D))", lambda h, m, i: ((h,), {}))
+    op("and_mask_both", "and_mask_both", "(lambda mk: {h} * torch.logical_and(mk, other=mk).to({h}.dtype))({h} > 0)", lambda h, m, i: ((h,), {}))
     op("with_zeros", "with_zeros", "{h} * self.zmask{i}", lambda h, m, i: ((h, g(m, "zmask", i)), {}),
        ["self.register_buffer('zmask{i}', (torch.arange(D) % 3 != 0).float())"])
     # ---- adds
@@ -331,6 +334,8 @@ class Semantics:
             "add_ones": lambda h: h + torch.ones_like(h),
             "index_rows": lambda h: h[:, torch.arange(S - 1, -1, -1)],
             "with_zeros": lambda h, z: h * z,
+            "add_view_both": lambda h: (lambda v: torch.add(v, other=v))(h.view(B, S, D)),
+            "and_mask_both": lambda h: (lambda mk: h * torch.logical_and(mk, other=mk).to(h.dtype))(h > 0),
             "row_mean_gate": lambda h: h * h.mean(dim=(1, 2), keepdim=True),
             "inf_mask_softmax": lambda h, z: F.softmax(h.masked_fill(z, float("-inf")), dim=-1),
             "view_inplace": lambda h: (h * 2.0) + (h * 2.0)[:, 0].unsqueeze(1),
